@@ -47,9 +47,9 @@ claim("C07", "exploration",
   "DESIGN.md §5 C07")
 
 claim("C19", "exploration",
-  "Seeded simulation of derivation trees: 2-3 simulated clients apply With... methods with overlapping arguments to ANY earlier RuntimeConfig/ModuleConfig/FSConfig node or instantiate with it (also with a sock config in the context). A persistent-value model records every node; after every step every node's structural fingerprint (reflection walk, foreign pointers by identity) must equal the one taken at its creation, and what a guest observes when instantiated with a node (args, environ, preopens and their content, module name, start functions run, stdout wiring, wall clock, random source; memory limit and features for runtime configs) must equal the model's record. Sampling of an unbounded tree space.",
-  "Trusted: the fingerprint walker and the persistent-value model; interleaving is at call granularity (no yield exists inside a With... call), stated as sequential orders.",
-  "deterministic simulation: tape-driven derivation trees vs persistent-value model, structural fingerprint + guest-observed refinement after every step",
+  "Seeded simulation of derivation trees: 2-3 simulated clients apply With... methods with overlapping arguments to ANY earlier RuntimeConfig/ModuleConfig/FSConfig node or instantiate with it (also with a sock config in the context). A persistent-value model records every node; after every step every node's structural fingerprint (reflection walk, foreign pointers by identity) must equal the one taken at its creation, and what a guest observes when instantiated with a node (args, environ, preopens and their content, module name, start functions run, stdout wiring, wall clock, random source; memory limit and features for runtime configs) must equal the model's record. Class concurrent-derivations: 2-3 baton-scheduled tasks derive from the same shared ModuleConfig/FSConfig values at the same time on an instrumented scratch copy (statement-level yields in config.go and fsconfig.go), the With... calls interleaved statement by statement; afterwards the shared receivers keep their fingerprint and every derived value shows a guest exactly the model's args, environ and pre-opens. Sampling of an unbounded tree space and of schedules.",
+  "Trusted: the fingerprint walker and the persistent-value model; classes tree / tree-sock interleave at call granularity (sequential orders); class concurrent-derivations interleaves at statement granularity (go/ast instrumenter, yields switched on for this class only) - two conflicting accesses inside one statement are out of reach.",
+  "deterministic simulation: tape-driven derivation trees vs persistent-value model, structural fingerprint + guest-observed refinement after every step; seeded baton scheduler over instrumented configuration code for concurrent derivations",
   "DESIGN.md §5 C19")
 
 claim("C18", "exploration",
